@@ -1653,6 +1653,34 @@ FUNCS = [
                     "steps := steps ++ DStep.openTmp :: chunks.map DStep.chunk"),
                    ('tokio::fs::rename(&tmp, dst) .await .map_err(|e| format!("rename {}: {e}", dst.display()))?;', "steps := steps ++ [DStep.publish]"),
                    ("let _ = set_local_mtime(dst, t);", "steps := steps ++ [DStep.stamp]")]),
+    dict(group="deliver", file="src/bin/copia/transfer.rs", name="transfer_file_to_remote", sig=None,
+         lean="def pushStreamGen (metadata_len : Option Nat) (spawn_ok stdin_ok : Bool) (file_chunks : Option (List (List Nat))) (write_ok : Bool) (wait : Option Bool) :\n"
+              "    Option Nat × Option Nat × List Nat := Id.run do\n"
+              "  -- world: `metadata(local).len()` (none = it fails), whether ssh was spawned and its stdin taken, the chunks the read loop gets (none = the file\n"
+              "  -- cannot be opened; reads succeed), whether the writes to ssh's stdin succeed, the remote command's exit (none = wait fails).\n"
+              "  -- Result: (Ok(bytes) or none, the size written into the remote command's `wc -c` guard (none = no command was issued), the bytes sent)\n"
+              "  let mut sent : List Nat := []\n"
+              "  let mut announced : Option Nat := none",
+         calls={}, paths={},
+         block_heads=[dict(rust='loop { let n = file .read(&mut buf) .await .map_err(|e| format!("read: {e}"))?; if n == 0 { break; }', before="for chunk in chunks do", indent=2)],
+         verbatim=[("use tokio::io::AsyncReadExt;", ""),
+                   ('let metadata = tokio::fs::metadata(local_path) .await .map_err(|e| format!("{}: {e}", local_path.display()))?;', "let some metadata := metadata_len | return (none, announced, sent)"),
+                   ("let file_size = metadata.len();", "let file_size := metadata"),
+                   ("let escaped = remote_path.replace('\\\\', \"\\\\\\\\\").replace('\\'', \"\\\\'\");", ""),
+                   ('let tmp_escaped = format!("{escaped}.copia-tmp");', ""),
+                   ('let touch = mtime.map_or(String::new(), |t| format!(" && touch -d @{t} $\'{escaped}\'"));', ""),
+                   ('let mut child = tokio::process::Command::new("ssh") .arg(host) .arg(format!( "cat > $\'{tmp_escaped}\' && [ \\"$(wc -c < $\'{tmp_escaped}\')\\" -eq {file_size} ] && [ ! -d $\'{escaped}\' ] && mv -f $\'{tmp_escaped}\' $\'{escaped}\'{touch}" )) '
+                    '.stdin(std::process::Stdio::piped()) .stdout(std::process::Stdio::null()) .stderr(std::process::Stdio::piped()) .spawn() .map_err(|e| format!("ssh spawn: {e}"))?;',
+                    "if !spawn_ok then\n  return (none, announced, sent)\nannounced := some file_size"),
+                   ('let mut stdin = child .stdin .take() .ok_or_else(|| "Failed to open SSH stdin".to_string())?;', "if !stdin_ok then\n  return (none, announced, sent)"),
+                   ('let mut file = tokio::fs::File::open(local_path) .await .map_err(|e| format!("open {}: {e}", local_path.display()))?;', "let some chunks := file_chunks | return (none, announced, sent)"),
+                   ("let mut buf = vec![0u8; 256 * 1024];", ""),
+                   ('tokio::io::AsyncWriteExt::write_all(&mut stdin, &buf[..n]) .await .map_err(|e| format!("write: {e}"))?;', "if !write_ok then\n  return (none, announced, sent)\nsent := sent ++ chunk"),
+                   ("drop(stdin);", ""),
+                   ('let result = child .wait_with_output() .await .map_err(|e| format!("ssh wait: {e}"))?;', "let some status_success := wait | return (none, announced, sent)"),
+                   ('if !result.status.success() { let stderr = String::from_utf8_lossy(&result.stderr); return Err(format!("SSH failed for {}: {stderr}", local_path.display())); }',
+                    "if !status_success then\n  return (none, announced, sent)"),
+                   ("Ok(file_size)", "return (some file_size, announced, sent)")]),
     dict(group="deliver", file="src/bin/copia/dir_sync.rs", name="transfer_file_from_remote", sig=None, option=True, no_loop=True,
          lean="def pullStreamGen (spawn_ok stdout_ok create_ok : Bool) (copy : Option Nat) (flush_ok : Bool) (wait : Option Bool) : Option Nat := Id.run do\n"
               "  -- world: whether ssh could be spawned, its stdout taken, the local file created; what `tokio::io::copy` returns (none = a read or a\n"
